@@ -14,16 +14,22 @@ from fractions import Fraction
 from common import *
 
 VALUES = """-9223372036854775808 -9223372036854775807 -9007199254740993 -9007199254740992 -9007199254740991
--4294967296 -2147483649 -2147483648 -99999999.99 -65536 -32769 -32768 -129 -128 -1.5 -1 -0.01 -0.0000000001 0 0.0000000001 0.01 0.5 1 1.5
-2 127 128 255 256 32767 32768 65535 65536 16777216 16777217 99999999.99 2147483647 2147483648 4294967295 4294967296
+-4294967296 -2147483649 -2147483648 -99999999.99 -86400 -65536 -32769 -32768 -129 -128 -1.5 -1 -0.01 -0.0000000001 0 0.0000000001 0.000000001 0.000001 0.001 0.01 0.5 1 1.5
+2 127 128 255 256 32767 32768 65535 65536 86400 16777216 16777217 99999999.99 1000000000 1700000000.123456789 2147483647 2147483648 4294967295 4294967296
+9223372036 9223372037 253402300799
 9007199254740991 9007199254740992 9007199254740992.5 9007199254740993 9223372036854775807 9223372036854775808
 10000000000000000000 18446744073709551614 18446744073709551615 18446744073709551616 99999999999999999999""".split()
 
 INT_RANGE = {"i8": (-2**7, 2**7 - 1), "i16": (-2**15, 2**15 - 1), "i32": (-2**31, 2**31 - 1), "i64": (-2**63, 2**63 - 1),
              "u8": (0, 2**8 - 1), "u16": (0, 2**16 - 1), "u32": (0, 2**32 - 1), "u64": (0, 2**64 - 1)}
-DEC = {"d20_0": (20, 0), "d10_2": (10, 2), "d38_10": (38, 10)}
+DEC = {"d20_0": (20, 0), "d10_2": (10, 2), "d38_10": (38, 10), "d256_50_10": (50, 10)}
 EXACT = list(INT_RANGE) + list(DEC) + ["dict_i64"]
-TYPES = list(INT_RANGE) + list(DEC) + ["f32", "f64", "utf8", "dict_i64", "dict_utf8"]
+STRINGS = ["utf8", "utf8view", "largeutf8", "dict_utf8"]
+# temporal types: a value of the line is read as SECONDS since the epoch; unit = ticks per second (dates: per day)
+TEMPORAL = {"date32": Fraction(1, 86400), "date64": 1000, "ts_s": 1, "ts_ms": 10**3, "ts_us": 10**6, "ts_ns": 10**9, "ts_ns_utc": 10**9, "ts_us_p2": 10**6}
+TYPES = list(INT_RANGE) + list(DEC) + ["f32", "f64"] + STRINGS + ["dict_i64"] + list(TEMPORAL)
+# quick tier: the pairs among these classes are all driven; thorough drives every ordered pair
+CLASS = {**{t: "int" for t in INT_RANGE}, **{t: "dec" for t in DEC}, "f32": "float", "f64": "float", **{t: "str" for t in STRINGS}, "dict_i64": "int", **{t: "time" for t in TEMPORAL}}
 
 
 def f32_exact(x):
@@ -49,8 +55,14 @@ def representable(t, x):
         return Fraction(float(x)) == x
     if t == "f32":
         return f32_exact(x)
-    if t in ("utf8", "dict_utf8"):        # strings of digits: the canonical numeral of an integer
+    if t in STRINGS:                      # strings of digits: the canonical numeral of an integer
         return x.denominator == 1
+    if t in TEMPORAL:
+        y = x * TEMPORAL[t]
+        if t == "date64" and (x / 86400).denominator != 1:
+            return False                  # Date64 holds whole days (in milliseconds)
+        lim = 2**31 if t == "date32" else 2**63
+        return y.denominator == 1 and -lim <= y < lim and abs(x) <= 253402300799
     raise KeyError(t)
 
 
@@ -62,12 +74,27 @@ def table():
     if len(set(fr)) != len(fr):
         raise ToolError("duplicate value in the number line")
     rep = {t: [i + 1 for i, x in enumerate(fr) if representable(t, x)] for t in TYPES}
-    return vals, rep
+    return vals, rep, fr
+
+
+def rows_of(t, vals, rep, fr):
+    """[index, text] per row: the numeral (tick count for temporal types), then NULL (index 0), then float specials"""
+    rows = []
+    for i in rep[t]:
+        if t in TEMPORAL:
+            rows.append([i, str(int(fr[i - 1] * TEMPORAL[t]))])
+        else:
+            rows.append([i, vals[i - 1]])
+    if t in ("f32", "f64"):
+        z = next(i for i in rep[t] if fr[i - 1] == 0)
+        rows += [[z, "-0"], [-1, "NaN"], [-2, "inf"], [-3, "-inf"]]
+    rows.append([0, "NULL"])
+    return rows
 
 
 def run(ctx):
     build("vtext")
-    vals, rep = table()
+    vals, rep, fr = table()
     only = None
     if ctx.replay:
         rp = json.load(open(ctx.replay))
@@ -81,7 +108,7 @@ def run(ctx):
                         + "MCExact == {%s}\n====\n" % ", ".join(q(t) for t in EXACT))
     cfg = ctx.path("NumLineMC.cfg")
     open(cfg, "w").write(f"CONSTANTS K = {len(vals)}\n  Types <- MCTypes\n  Rep <- MCRep\n  Exact <- MCExact\n"
-                         "SPECIFICATION Spec\nINVARIANTS MirrorLaw NegateLaw Trichotomy InLaw JoinLaw Emit\nCHECK_DEADLOCK FALSE\n")
+                         "SPECIFICATION Spec\nINVARIANTS MirrorLaw NegateLaw Trichotomy InLaw JoinLaw BetweenLaw Emit\nCHECK_DEADLOCK FALSE\n")
     r = tlc_must_pass(ctx, mc, cfg=cfg, workers=4, timeout=1800, tag="numline")
     cases = tlc_cases(r.out)
     if len(cases) != len(TYPES) ** 2:
@@ -93,23 +120,52 @@ def run(ctx):
     if only:
         pairs = [p for p in pairs if (p["ta"], p["tb"]) == only]
     elif ctx.quick:
-        # every unordered pair in one seeded orientation + every exact pair in both
+        # every exact pair in both orientations; every other unordered pair of type CLASSES in both orientations with
+        # seeded representatives; every remaining unordered type pair in one seeded orientation, thinned to keep the tier short
         ctx.rng.shuffle(pairs)
-        seen, sel = set(), []
+        seen, seen_cls, sel = set(), set(), []
         for p in pairs:
             key = frozenset((p["ta"], p["tb"]))
-            if p["exact"] or key not in seen:
+            ck = (CLASS[p["ta"]], CLASS[p["tb"]])
+            if p["exact"] and (CLASS[p["ta"]] != CLASS[p["tb"]] or p["ta"] == p["tb"] or key not in seen):
                 sel.append(p)
-                seen.add(key)
+            elif not p["exact"] and ck not in seen_cls:
+                sel.append(p)
+            elif not p["exact"] and key not in seen and ctx.rng.random() < 0.2:
+                sel.append(p)
+            else:
+                continue
+            seen.add(key)
+            seen_cls.add(ck)
         pairs = sel
-    json.dump({"values": vals, "types": [{"name": t, "idxs": rep[t]} for t in TYPES], "pairs": pairs,
-               "filter_ops": ["=", "<", ">="] if ctx.quick else ["=", "<>", "<", "<=", ">", ">="]}, open(ctx.path("in.json"), "w"))
+    json.dump({"types": [{"name": t, "rows": rows_of(t, vals, rep, fr)} for t in TYPES], "pairs": pairs,
+               "filter_ops": ["=", "<", ">="] if ctx.quick else ["=", "<>", "<", "<=", ">", ">="],
+               # 0 = all values of the other type; thresholds of the IN-list strategies are 4, 8, 16, 32
+               "list_sizes": [1, 3, 4, 5, 9, 17, 33, 0]}, open(ctx.path("in.json"), "w"))
     summary, _ = run_harness(ctx, "vtext", ["c47", "--in", ctx.path("in.json"), "--out", ctx.path("res.json")], timeout=3000)
     res = json.load(open(ctx.path("res.json")))
-    for v in res["violations"][:10]:
-        report_violation(ctx, v, key=classify(v))
+    unknown = 0
+    for v in res["violations"]:
+        key = classify(v)
+        if key is None:
+            unknown += 1
+            if unknown > 10:
+                continue
+        report_violation(ctx, v, key=key)
     if res["exact_comparisons_checked"] == 0 and not only:
         raise ToolError("vacuity: no integer/decimal comparison was checked")
+    if not only:
+        need = ["projection", "NULL operand", "float special operand (NaN / inf)", "IN list with a non-literal entry", "filter", "equi-join (hash)",
+                "equi-join (sort-merge)", "equi-join (mirrored key order)", "equi-join with a residual filter", "null-equal join", "column vs literal",
+                "column vs literal in a filter", "IN list (filter)", "IN subquery"] + \
+               [f"IN list of {n} literals" for n in ("1-3", "4", "5-8", "9-16", "17-32", "33+")] + ["IN list of 1-3 literals + NULL", "IN list of 9-16 literals + NULL", "IN list of 33+ literals + NULL"]
+        never = [k for k in need if not res["paths"].get(k)]
+        if never:
+            raise ToolError(f"vacuity: sub-checks never exercised: {never}")
+        driven = {(CLASS[p["ta"]], CLASS[p["tb"]]) for p in pairs}
+        missing = [(a, b) for a in set(CLASS.values()) for b in set(CLASS.values()) if (a, b) not in driven]
+        if missing:
+            raise ToolError(f"vacuity: type-class pairs never driven: {missing}")
     write_evidence(ctx, "exploration", {
         "evaluations": res["evaluations"], "distinct_nontrivial": res["distinct_nontrivial"],
         "rule": "a case is <typeA, valueA, typeB, valueB> evaluated through SQL; distinct = distinct <typeA, typeB, indexA, indexB>; every pair is non-trivial (two typed values at type boundaries)",
@@ -120,9 +176,12 @@ def run(ctx):
         "exact_comparisons_checked": res["exact_comparisons_checked"], "queries": res["queries"],
         "engine_errors": res["n_errors"], "engine_error_samples": res["errors"][:6],
         "n_violations": res["n_violations"],
-        "coercion_samples": res["coercion"][:5],
+        "violation_classes": res.get("violation_classes"),
+        "coercion_samples": res["coercion"][:5], "sub_checks_run": res["paths"],
+        "non_exact_context_answers_differing_from_pairwise_operators": res["non_exact_context_answers_differing_from_pairwise_operators"],
     }, assumptions=[
-        "the value list is finite and chosen (type minima/maxima, 2^24/2^53 neighbourhoods, 2^63, 2^64-1, 10^19, decimal scale edges, -0/+0)",
+        "the value list is finite and chosen (type minima/maxima, 2^24/2^53 neighbourhoods, 2^63, 2^64-1, 10^19, decimal scale edges, -0/+0, NaN, +-inf, NULL; for temporal types the numbers are seconds since the epoch: unit edges 1e-3/1e-6/1e-9, +-1 day, 1e9, the nanosecond range edge 9223372036/7, 9999-12-31)",
+        "temporal, float and string types are checked for the laws between engine answers (mirror, IN/join/literal agreement), not against the mathematical order; BETWEEN / CASE / IS DISTINCT FROM answers are verdicts only for integer/decimal pairs",
         "when the projection over all value pairs of a type pair raises an error (allowed by the property, e.g. a digit string that does not fit the integer type), the pair is driven again on the values both types represent",
         "exactness is required only when both types are integers or decimals (incl. a dictionary of Int64) and the query raises no error; for floats and digit strings only the laws between engine answers are checked",
         "quick tier drives every unordered type pair in one seeded orientation (exact pairs in both) and filter operators =, <, >=; the thorough tier drives all ordered pairs and all six operators",
@@ -133,4 +192,18 @@ def classify(v):
     # known finding: a float column holding -0.0 is not found by an IN list (>= 4 elements) that contains 0
     if v.get("kind") == "IN list" and v.get("case", {}).get("a") == "-0" and v.get("in_result") is False:
         return "in-list-negative-zero"
+    LITERAL_KINDS = ("column op literal", "literal mirror(op) column", "filter: column op literal", "IN list", "NOT IN list", "IN list (filter)")
+    ta, tb = v.get("case", {}).get("ta"), v.get("case", {}).get("tb")
+    if v.get("kind") in LITERAL_KINDS:
+        # an Int32 column against a Date64 LITERAL (the literal is folded to the integer type as a millisecond count, the
+        # column-to-column comparison reads the integer as days)
+        if ta == "i32" and tb == "date64":
+            return "int32-column-vs-date64-literal"
+        NAIVE = {"date32": 0, "date64": 0, "ts_s": 1, "ts_ms": 10**3, "ts_us": 10**6, "ts_ns": 10**9}
+        # a naive date/timestamp column against a literal that carries a UTC offset
+        if ta in NAIVE and tb == "ts_us_p2":
+            return "timestamp-literal-utc-offset"
+        # a timestamp column of a coarser unit against a literal of a finer unit (the literal is truncated)
+        if ta in ("ts_s", "ts_ms") and tb in ("ts_ms", "ts_us", "ts_ns") and NAIVE[tb] > NAIVE[ta]:
+            return "timestamp-literal-unit-truncation"
     return None
